@@ -1,11 +1,25 @@
 """C03 -- a transaction runs only when it is fully enabled."""
 from checks.core import run_core
+from vlib.runner import E1, run_jobs
 
 PROP = "C03"
 
 
+def nested_in_dead_jobs():
+    """a plain nested transaction whose enclosing transaction is tied by simultaneity (Connect) to a partner that exists /
+    that nobody calls: the nested transaction is ready-dependent on the enclosing body in either case (harness of C13)"""
+    js = []
+    for cfg in ({"kind": "dead", "shape": "live", "nested": True}, {"kind": "dead", "shape": "mixed", "nested": True},
+                {"kind": "dead", "shape": "open", "n": 1, "nested": True}, {"kind": "dead", "shape": "open", "n": 2, "nested": True},
+                {"kind": "dead", "shape": "open", "n": 2, "nested": True, "rev": True}):
+        js.append(E1("checks.c13", "ConnH", cfg, replay_cap=2))
+    return js
+
+
 def run(rep, tier):
-    return run_core(
+    floors = run_core(
         rep, "C03", ['flat_s', 'chain_s', 'ctrl', 'xmod', 'nest', 'val', 'rel2', 'prov'],['flat', 'flat3_s', 'chain_m', 'ctrl', 'xmod_l', 'nest', 'val', 'rel3', 'prov'], tier,
-        "every design x register state x input valuation, both schedulers: run(T) implies ready(T), every method of the static call tree ready (also behind false conditions / enable_call), every validate_arguments predicate true on the arguments of the chain-enabled calls, and every ready-dependency source running; the ready signal itself is compared with the reference; non-trivial = valuations in which a ready transaction is blocked only by a callee, only by a validator, only by a ready-dependency",
+        "every design x register state x input valuation, both schedulers: run(T) implies ready(T), every method of the static call tree ready (also behind false conditions / enable_call), every validator accepting the arguments of the call sites whose conditions hold, and every ready-dependency (enclosing body, schedule_before(ready_dependent=True) source) running in the same cycle; plus a nested transaction inside a transaction that is simultaneous (Connect) with a live / an uncalled partner; non-trivial = valuations where a ready transaction is blocked by one of these clauses",
         scheds=("eager", "rr"), floors={"designs_simulated": 500, "transitions": 100000, "nt_blocked_by_callee_ready": 10000, "nt_blocked_by_validator": 100, "nt_blocked_by_ready_dependency": 100})
+    rep.add_e1(run_jobs(nested_in_dead_jobs()))
+    return floors
